@@ -16,9 +16,15 @@ The tie (harness/comp/deflate.c = real compression.c + zlib + websocket.c, ASan/
            real receive path (direct calls, text variant, masked frames through ws_get_header) inflates;
            property evaluated directly: output == input;
   mut/dec  corrupt streams (bit flips, truncation, insertions, junk): any verdict, but no sanitizer report.
+  comp     the compressor alone (websocket_compress_bounded with the size send_frame uses, the 2*len wrapper of the
+           tests, and destinations of need-4 .. need+2 / 0 / 3 / 4 / 5 bytes, exactly sized on the heap), message
+           sequences on one connection: a complete message (and the peer inflates it, also behind refused ones) exactly
+           when zlib's output is shorter than the destination, otherwise -1; compared with the model; the assumption
+           "deflate output <= deflateBound + 6" (hBound of roundtrip_given_zlib) is checked on every message;
+  offerx   every offer of the corpus once more in a heap buffer of exactly `length` bytes: no read behind it (F38) and
+           the same answer whatever follows the value in memory.
 A sanitizer abort is a result: the op is recorded as aborted and the harness restarted behind it.
-Known finding F37 (open): websocket_compress gives zlib 2*len bytes; payloads whose deflate output is longer
-(<= 5 bytes, some of 6, the empty one) are truncated / read outside `dest` / answered -1.
+F37 (fixed f176546) and F38 (fixed 14a967e) run as ordinary regressions: a recurrence is a VIOLATION.
 """
 import concurrent.futures
 import itertools
@@ -37,12 +43,16 @@ SRCS = ("compression.c websocket.c http_connection.c http_server.c base64.c allo
         "zlib/inftrees.c zlib/trees.c zlib/zutil.c").split()
 
 ASSUMPTIONS = [
-    "zlib (src/zlib, 1.2.11) is NOT modelled: deflate with a sync/full flush ends with 00 00 ff ff behind at least "
-    "one byte, and inflate undoes deflate for the negotiated window bits / context takeover settings "
-    "(hypotheses hTail, hInv of roundtrip_given_zlib_partial). Losslessness therefore rests on zlib and is only "
-    "SAMPLED by the rt runs of this check.",
-    "zlib's deflate reports Z_BUF_ERROR when it is given an empty output buffer, and its inflate stores as many "
-    "bytes as fit per call (used by the model of websocket_compress / the output doubling loop).",
+    "zlib (src/zlib, 1.2.11) is NOT modelled. Hypotheses of roundtrip_given_zlib / roundtrip_session_given_zlib, all about "
+    "the oracle only: hTail (deflate with a sync/full flush ends with 00 00 ff ff behind at least one byte), hInv (inflate "
+    "undoes deflate for the negotiated window bits / context takeover settings), hBound (the output for one flushed message "
+    "is at most deflateBound(length) + 6 bytes: zlib.h, deflateBound() and the flush marker). Losslessness therefore rests on "
+    "zlib and is only SAMPLED by the rt runs of this check; hBound is checked on every generated message (need <= db + 6).",
+    "compress_never_truncates / compress_no_oob_for_any_zlib_output need NO assumption about zlib's output (any length, any "
+    "content, errors); they assume only that deflate() stores at most avail_out bytes and that its inflate stores as many "
+    "bytes as fit per call (output doubling loop).",
+    "zlib's deflate reports Z_BUF_ERROR (stream unchanged) when there is nothing to do: an empty message behind a flush is "
+    "answered -1 by the sender (the first message of a connection may be empty); rt/comp expect exactly that.",
     "sizes below 2^32/8: compression.c computes the reassembly sizes in unsigned int; reassemble_cap_le bounds "
     "them by 6*total+16 (no wrap below that).",
     "harness compiled with -fno-sanitize=nonnull-attribute: zlib 1.2.11 calls memcpy(dst, NULL, 0) in "
@@ -51,6 +61,8 @@ ASSUMPTIONS = [
     "the peer of the rt runs is an RFC 7692 endpoint built directly on the same zlib (a client bound to an 8 bit "
     "window sends Huffman-only blocks, because zlib cannot deflate raw with 8 bits).",
 ]
+
+FLUSH_MARKER_MAX = 6      # hBound: need <= deflateBound + this (the model's flushMarkerMax comes from the source)
 
 PMD = "permessage-deflate"
 CMW, SMW, CNC, SNC = ("client_max_window_bits", "server_max_window_bits", "client_no_context_takeover",
@@ -338,7 +350,17 @@ def gen_offers(ctx):
     for d in directed:
         for lv in levels:
             out.append((lv, d.encode("latin-1"), None, "directed"))
-    # what lies behind the header value in memory (the parser reads beyond `length`)
+    # F38: offers that end in blanks, right behind a `=`, behind a name that needs a value, inside a name
+    ends = [PMD + ";", PMD + "; ", PMD + ";  \t ", PMD + "; " + CMW + ";", PMD + "; " + CMW + "; ", PMD + "; " + CMW + "=",
+            PMD + "; " + CMW + "=1", PMD + "; " + SMW, PMD + "; " + SMW + "=", PMD + "; " + SMW + "=1", PMD + "; " + CMW + "; " + SMW,
+            PMD + "; " + SMW + "=10; " + CMW + "=", PMD + "; " + CNC + "; " + SMW + " ", PMD + ";" + SMW, "x" * 30 + ";",
+            PMD + "; " + CMW + "=15, " + PMD + "; " + SMW, PMD + "; " + SMW + ", " + PMD + "; " + CMW + "="]
+    for full in (PMD + "; " + CMW + "=15", PMD + "; " + SMW + "=15", PMD + "; " + CNC, PMD + "; " + SNC + "; " + CMW):
+        ends += [full[:k] for k in range(len(PMD), len(full))]
+    for d in ends:
+        for lv in levels:
+            out.append((lv, d.encode("latin-1"), None, "ends"))
+    # what lies behind the header value in memory (before F38 the parser read beyond `length`)
     for v in (PMD + "; " + CMW + "=", PMD + "; " + SMW + "=", PMD + "; " + CMW + "=1", PMD + "; ", PMD + ";", PMD + "; " + CMW + "; "):
         for after in (b"", b"\r\n", b"15", b"15\r\n", b"1", b"9", b" \t\r\n \x0b\x0c" + CMW.encode(), b"0\r\n", b"8;" + CNC.encode()):
             for lv in levels:
@@ -524,66 +546,151 @@ def gen_corrupt(ctx):
     return out
 
 
+COMP_DESTS = ("b", "w", "+1", "+0", "-1", "+2", "-4", "=0", "=3", "=4", "=5", "+100")
+
+
 def gen_comp(ctx):
-    """websocket_compress alone: (line, payload length)."""
+    """The compressor alone: (line, [payload bytes])."""
     out = []
-    setups = ["L1:8:1:9:1", "L2:12:0:12:0", "L3:15:0:15:0", "L2:12:0:9:1"]
+    setups = ["L1:8:1:9:1", "L2:12:0:12:0", "L3:15:0:15:0", "L2:12:0:9:1", "L0:15:0:15:0"]
+    kinds = ("zero", "rand", "high", "text", "rep")
+
+    def add(setup, dest, payloads):
+        out.append(("comp %s %s %s" % (setup, dest, " ".join(hx(p) for p in payloads)), list(payloads)))
     r = C.rng("c19-comp")
-    for n in list(range(0, 24)) + [31, 32, 33, 64, 100, 255, 256, 257, 511, 512, 513, 1000, 4096] + ([20000, 70000] if ctx.thorough else []):
-        for kind in ("zero", "rand", "high", "text", "rep"):
+    sizes = list(range(0, 24)) + [31, 32, 33, 64, 100, 126, 127, 128, 255, 256, 257, 511, 512, 513, 1000, 4096]
+    if ctx.thorough:
+        sizes += [20000, 70000]
+    for n in sizes:
+        for kind in kinds:
+            p = payload_of(kind, n, r)
             for s in setups:
-                out.append(("comp %s %s" % (s, hx(payload_of(kind, n, r))), n))
+                for dest in (("b", "w", "+1", "+0", "-1") if n < 40 or ctx.thorough else ("b", "w", "+0")):
+                    add(s, dest, [p])
+    # sequences on one connection: refused messages (too small a destination, empty ones) between good ones
+    for s in setups:
+        for dest in COMP_DESTS:
+            rr = C.rng("c19-comp-seq", s, dest)
+            msgs = [payload_of(rr.choice(kinds), rr.choice((0, 1, 2, 5, 6, 7, 30, 200, 700)), rr) for _ in range(8)]
+            add(s, dest, msgs + [msgs[2], b"", b"", b"A"])
+    # alternating: the wrapper refuses the tiny ones, the next message must still be decodable
+    for s in setups[:4]:
+        add(s, "w", [b"A", b"hello hello hello hello", b"", b"BC", payload_of("text", 300, r), b"D", payload_of("rand", 64, r)])
     for i in range(200 if not ctx.thorough else 6000):
         r = C.rng("c19-comp", i)
-        n = r.choice((r.randrange(0, 10), r.randrange(0, 40), r.randrange(0, 3000)))
-        out.append(("comp %s %s" % (r.choice(setups), hx(payload_of(r.choice(("zero", "rand", "high", "text", "rep")), n, r))), n))
+        msgs = [payload_of(r.choice(kinds), r.choice((r.randrange(0, 10), r.randrange(0, 40), r.randrange(0, 3000))), r)
+                for _ in range(r.choice((1, 1, 2, 4)))]
+        add(r.choice(setups), r.choice(COMP_DESTS), msgs)
     return out
 
 
 # --------------------------------------------------------------------------- evaluation
 
-RT_MSG = re.compile(r"\[need=(-?\d+) s2c=(\S+) c2s=(\S+) n=(\d+) frags=(\S+)\]")
+RT_MSG = re.compile(r"\[need=(-?\d+) db=(-?\d+) bound=(\S+) s2c=(\S+) c2s=(\S+) n=(\d+) frags=(\S+)\]")
+COMP_MSG = re.compile(r"\[full=(\S+) db=(-?\d+) bound=(\S+) size=(\d+) ret=(-?\d+) out=(\S+) tail=(\d) peer=(\S+)\]")
+TAIL = bytes([0, 0, 255, 255])
+
+
+def bound_clause(ln, need, db):
+    """hBound of roundtrip_given_zlib evaluated on the real zlib; None when it holds."""
+    if need > 0 and db >= 0 and need > db + FLUSH_MARKER_MAX:
+        return ("ASSUMPTION hBound broken: zlib emitted %d bytes for a message of %d bytes, above deflateBound() = %d plus the "
+                "flush marker of %d" % (need, ln, db, FLUSH_MARKER_MAX))
+    return None
 
 
 def eval_rt(line, meta, res):
-    """Returns (violations[list of clause], known[bool F37 seen], stats)."""
-    viol, known = [], False
+    """The round-trip clause on one rt observation. Returns (violations[list of clause], stats)."""
+    viol, st = [], {}
     obs = res["obs"]
     msgs = RT_MSG.findall(obs)
     lens = meta["lens"]
-    tainted = False     # F37 fired earlier on this connection: the deflate stream is gone/corrupt
     if "noaccept" in obs:
-        return viol, known, {"noaccept": 1}
+        return viol, {"noaccept": 1}
     for k, ln in enumerate(lens):
         if k < len(msgs):
-            need, s2c, c2s = int(msgs[k][0]), msgs[k][1], msgs[k][2]
-            trig = ln == 0 or need > 2 * ln or need < 0
-            if s2c != "ok":
-                if trig or tainted:
-                    known = True
-                    tainted = True
-                else:
-                    viol.append("message %d (%d bytes): server->client %s" % (k, ln, s2c))
-            if trig:
-                tainted = True       # the cut-off remainder stays in zlib's pending buffer and leads the next message
+            need, db, bound, s2c, c2s = int(msgs[k][0]), int(msgs[k][1]), msgs[k][2], msgs[k][3], msgs[k][4]
+            bc = bound_clause(ln, need, db)
+            if bc:
+                viol.append("message %d: %s" % (k, bc))
+            if need > 2 * ln or ln == 0:
+                st["former_f37_trigger"] = st.get("former_f37_trigger", 0) + 1
+            if need > 0:
+                if s2c != "ok":
+                    viol.append("message %d (%d bytes, deflate output %d bytes, buffer %s): server->client %s" % (k, ln, need, bound, s2c))
+                elif bound != "-" and int(bound) <= need:
+                    viol.append("message %d: sent although the buffer (%s) is not larger than the deflate output (%d)" % (k, bound, need))
+            else:
+                st["zlib_refuses"] = st.get("zlib_refuses", 0) + 1
+                if s2c != "fail:-1":
+                    viol.append("message %d (%d bytes): zlib has no output for it (need=%d), the sender must report -1 and "
+                                "send nothing, got %s" % (k, ln, need, s2c))
             if c2s != "ok":
                 viol.append("message %d (%d bytes): client->server %s" % (k, ln, c2s))
         else:
-            # the op aborted inside message k
             ab = res.get("abort")
             if ab is None:
                 viol.append("message %d: no result" % k)
-                break
-            part = obs.split("[")[-1] if "[" in obs else ""
-            m = re.match(r"need=(-?\d+) s2c=(\S*)", part)
-            in_s2c = m is not None and "c2s=" not in part
-            if in_s2c and (ln == 0 or int(m.group(1)) > 2 * ln or int(m.group(1)) < 0 or tainted) and \
-                    "websocket_compress" in ab.get("where", "") + ab.get("stderr", ""):
-                known = True
             else:
-                viol.append("message %d (%d bytes): sanitizer abort %s at %s" % (k, ln, ab["kind"], ab["where"]))
+                viol.append("message %d (%d bytes): sanitizer abort %s %s at %s" % (k, ln, ab["kind"], ab["access"], ab["where"]))
             break
-    return viol, known, {}
+    return viol, st
+
+
+def comp_level(line):
+    return int(line.split()[1][1])
+
+
+def eval_comp(line, payloads, res):
+    """The sender clause on one comp observation (every zlib output, every destination size): a complete message or -1.
+    Returns (violations, model lines, implementation answers in the model's format, stats)."""
+    viol, mlines, answers, st = [], [], [], {}
+    obs = res["obs"]
+    lv = comp_level(line)
+    if "nobounded" in obs:
+        return ["websocket_compress_bounded()/websocket_compress_bound() are missing in this tree"], [], [], st
+    msgs = COMP_MSG.findall(obs)
+    for k, p in enumerate(payloads):
+        n = len(p)
+        if k >= len(msgs):
+            ab = res.get("abort")
+            viol.append("message %d (%d bytes): %s" % (k, n, "no result" if ab is None else
+                                                    "sanitizer abort %s %s at %s" % (ab["kind"], ab["access"], ab["where"])))
+            break
+        full, db, bound, size, ret, outhex, tail, peer = msgs[k]
+        db, size, ret = int(db), int(size), int(ret)
+        answers.append("comp ret=%d out=%s tail=%s" % (ret, outhex, tail))
+        if lv == 0:
+            mlines.append("comp 0 %d %d %s" % (n, size, hx(p)))
+            want = n if size >= n else -1
+            if ret != want or (ret >= 0 and C.unhex(outhex) != p):
+                viol.append("message %d: level 0, %d bytes into %d: ret=%d out=%s" % (k, n, size, ret, outhex))
+            continue
+        mlines.append("comp %d %d %d %s" % (lv, n, size, full))
+        if full == "ERR":
+            st["zlib_refuses"] = st.get("zlib_refuses", 0) + 1
+            if ret != -1:
+                viol.append("message %d: deflate() fails but ret=%d" % (k, ret))
+            continue
+        fullb = C.unhex(full)
+        need = len(fullb)
+        bc = bound_clause(n, need, db)
+        if bc:
+            viol.append("message %d: %s" % (k, bc))
+        fits = need < size
+        st["fits" if fits else "too_small"] = st.get("fits" if fits else "too_small", 0) + 1
+        if need > 2 * n:
+            st["former_f37_trigger"] = st.get("former_f37_trigger", 0) + 1
+        if fits:
+            if ret != need - 4 or tail != "1" or C.unhex(outhex) + TAIL != fullb:
+                viol.append("message %d (%d bytes): zlib's %d bytes fit the destination of %d, but ret=%d tail=%s: not zlib's "
+                            "output without its tail" % (k, n, need, size, ret, tail))
+            elif peer != "ok":
+                viol.append("message %d (%d bytes): the peer cannot inflate what was returned: %s" % (k, n, peer))
+        elif ret != -1:
+            viol.append("message %d (%d bytes): zlib's %d bytes do not fit the destination of %d (flush incomplete), but ret=%d: "
+                        "a cut-off stream is handed out" % (k, n, need, size, ret))
+    return viol, mlines, answers, st
 
 
 def shrink_list(sizes, still_fails):
@@ -633,43 +740,63 @@ def run(ctx, out):
             model_ok = False
             return None
 
-    open_f37 = any(f.get("id") == "F37" for f in C.open_findings("C19"))
     traces = evals = 0
     nontrivial = set()
-    f37_replay = False
 
-    # ------------------------------------------------------------------ 0. regression replays of fixed findings
+    # ------------------------------------------------------------------ 0. regression replays of the findings
+    still_open = {}
     for f in C.known_findings("C19"):
         path = os.path.join(C.ROOT, f.get("replay", ""))
         if not os.path.isfile(path):
             continue
         lines = [l for l in open(path).read().splitlines() if l.strip() and not l.startswith("#")]
         res = run_impl(binp, lines)
-        mod = model(lines)
-        for k, (l, r) in enumerate(zip(lines, res)):
+        mod = model([l for l in lines if l.split()[0] in ("frags", "offer")])
+        mi = 0
+        for l, r in zip(lines, res):
             traces += 1
             bad = None
-            if l.startswith("rt "):
+            op = l.split()[0]
+            mline = None
+            if op in ("frags", "offer") and mod is not None:
+                mline = mod[mi]
+                mi += 1
+            if op == "rt":
                 lens = [0 if w == "-" else len(w) // 2 for w in l.split()[4:]]
-                v, kn, _ = eval_rt(l, {"lens": lens}, r)
-                if kn and f.get("status") == "open":
-                    f37_replay = True
-                elif kn and not open_f37:
-                    bad = "F37 behaviour without an open finding"
+                v, _ = eval_rt(l, {"lens": lens}, r)
                 if v:
                     bad = "; ".join(v)
+            elif op == "comp":
+                pl = [C.unhex(w) for w in l.split()[3:]]
+                v, ml, ans, _ = eval_comp(l, pl, r)
+                if v:
+                    bad = "; ".join(v)
+                elif ml:
+                    mm = model(ml)
+                    if mm is not None and [canon(x) for x in mm] != ans:
+                        bad = "model and implementation differ"
+                        mline = mm
             elif "abort" in r:
-                bad = "sanitizer abort %s at %s" % (r["abort"]["kind"], r["abort"]["where"])
-            elif l.startswith("frags ") and "contig=1" not in r["obs"]:
+                bad = "sanitizer abort %s %s at %s" % (r["abort"]["kind"], r["abort"]["access"], r["abort"]["where"])
+            elif op == "frags" and "contig=1" not in r["obs"]:
                 bad = "reassembled data not contiguous"
-            elif l.startswith("dec ") and "ret=" not in r["obs"]:
+            elif op == "dec" and "ret=" not in r["obs"]:
                 bad = "no verdict"
-            if not bad and mod is not None and l.split()[0] in ("frags", "offer") and canon(mod[k]) != canon(r["obs"]):
+            elif op in ("offer", "offerx"):
+                try:
+                    bad = offer_monitor(int(l.split()[1]), C.unhex(l.split()[2]), r["obs"])
+                except Exception as ex:
+                    bad = "unparsable answer: %r" % (ex,)
+            if not bad and mline is not None and op in ("frags", "offer") and canon(mline) != canon(r["obs"]):
                 bad = "model and implementation differ"
             if bad and f.get("status") == "fixed":
                 out.violation("regression scenario of fixed finding %s fails: %s" % (f["id"], bad),
                               {"property": "C19", "finding": f["id"], "script": [l], "variant": "default", "seed": ctx.seed,
-                               "impl": r, "model": mod[k] if mod else None, "clause": bad})
+                               "impl": r, "model": mline, "clause": bad})
+            elif bad:
+                still_open.setdefault(f["id"], []).append(l)
+    for fid, ls in still_open.items():
+        out.known_finding("%s directed replay reproduces (%d of its lines)" % (fid, len(ls)))
 
     # ------------------------------------------------------------------ 1. reassembly arithmetic
     flines, nex, alpha = gen_frags(ctx)
@@ -714,7 +841,7 @@ def run(ctx, out):
             p = payload_of("rand", tot, C.rng("c19-frag-confirm", l))
             rl = "rt L3:15:0:15:0 comp %s %s" % (",".join(map(str, sizes)) or "-", hx(p))
             rr = run_impl_chunk(binp, [rl])[0]
-            v, _, _ = eval_rt(rl, {"lens": [tot]}, rr)
+            v, _ = eval_rt(rl, {"lens": [tot]}, rr)
             out.violation("reassembly: model and implementation differ" + ("; round trip fails: " + v[0] if v else ""),
                           {"property": "C19", "script": [l, rl], "variant": "default", "seed": ctx.seed, "impl": [r, rr], "model": m,
                            "clause": v[0] if v else None, "theorem": "correspondence of Cjet.Deflate.run with reassemble()"},
@@ -792,16 +919,70 @@ def run(ctx, out):
                       no_input=not clause)
     cov["offers"] = {"ops": len(olines), "max_response_len": maxresp, "buffer": 129, "disagreements": len(obad)}
 
+    # ------------------------------------------------------------------ 2b. the same offers in exactly sized buffers (F38)
+    xlines = ["offerx %d %s" % (lv, hx(v)) for lv, v, a, _ in offers]
+    xres = run_impl(binp, xlines)
+    xbad = []
+    for k, (l, r) in enumerate(zip(xlines, xres)):
+        traces += 1
+        evals += 1
+        if "abort" in r:
+            xbad.append((k, "memory: %s %s in %s (a read behind the header value)" % (r["abort"]["kind"], r["abort"]["access"],
+                                                                                     r["abort"]["where"])))
+        elif "abort" not in ores[k] and canon(r["obs"]) != canon(ores[k]["obs"]):
+            xbad.append((k, "the answer depends on the memory behind the header value"))
+    for (k, clause) in xbad[:3]:
+        lv, v, a, fam = offers[k]
+
+        def xfails(bs):
+            rr = run_impl_chunk(binp, ["offerx %d %s" % (lv, hx(bytes(bs))),
+                                       "offer %d %s%s" % (lv, hx(bytes(bs)), (" " + hx(a)) if a is not None else "")])
+            return "abort" in rr[0] or canon(rr[0]["obs"]) != canon(rr[1]["obs"])
+        cur = list(v)
+        changed = True
+        while changed and len(cur) > 1:
+            changed = False
+            for span in (len(cur) // 2, 8, 1):
+                if span < 1:
+                    continue
+                i = 0
+                while i + span <= len(cur):
+                    t = cur[:i] + cur[i + span:]
+                    if t and xfails(t):
+                        cur, changed = t, True
+                    else:
+                        i += span
+        sv = bytes(cur)
+        ll = ["offerx %d %s" % (lv, hx(sv)), "offer %d %s%s" % (lv, hx(sv), (" " + hx(a)) if a is not None else "")]
+        rr = run_impl_chunk(binp, ll)
+        out.violation("negotiation: " + clause,
+                      {"property": "C19", "script": ll, "offer_text": sv.decode("latin-1"), "original": xlines[k], "level": lv,
+                       "variant": "default", "seed": ctx.seed, "impl": rr, "clause": clause,
+                       "theorem": "offer_parse_reads_in_bounds"})
+    # the model's own account of the reads, on the directed families
+    rk = [k for k, o in enumerate(offers) if o[3] in ("ends", "over-read", "directed", "separators")]
+    rm = model(["reads %d %s%s" % (offers[k][0], hx(offers[k][1]), (" " + hx(offers[k][2])) if offers[k][2] is not None else "")
+                for k in rk])
+    if rm is not None:
+        for k, m in zip(rk, rm):
+            if "ok=1" not in m:
+                out.violation("model: fillReads leaves the header value", {"property": "C19", "script": [olines[k]], "model": m,
+                                                                           "theorem": "offer_parse_reads_in_bounds"}, no_input=True)
+                break
+    cov["offers_exact"] = {"ops": len(xlines), "failing": len(xbad), "model_reads_checked": len(rk) if rm is not None else 0}
+
     # ------------------------------------------------------------------ 3. round trips (implementation, direct)
     rts = gen_rt(ctx, maxmsg)
     rlines = [l for l, _ in rts]
     rres = run_impl(binp, rlines, chunk=40)
     rbad = []
-    f37_seen = 0
+    rstats = {}
     nmsgs = 0
     for (l, meta), r in zip(rts, rres):
         traces += 1
-        v, kn, st = eval_rt(l, meta, r)
+        v, st = eval_rt(l, meta, r)
+        for kk, vv in st.items():
+            rstats[kk] = rstats.get(kk, 0) + vv
         nmsgs += len(meta["lens"])
         evals += 2 * len(meta["lens"])
         bump("rt.mode." + meta["mode"])
@@ -811,10 +992,6 @@ def run(ctx, out):
         if "noaccept" in r["obs"]:
             bump("rt.noaccept")
         nontrivial.add(("rt", meta["setup"], meta["mode"], meta["cuts"], tuple(meta["lens"])))
-        if kn:
-            f37_seen += 1
-            if not open_f37:
-                v.append("websocket_compress fails on a payload whose deflate output exceeds 2*len (F37) and no open finding lists it")
         if v:
             rbad.append((l, meta, r, v))
     for (l, meta, r, v) in rbad[:3]:
@@ -824,60 +1001,67 @@ def run(ctx, out):
         for k in range(len(meta["lens"])):
             cand = " ".join(w[:4] + [w[4 + k]])
             rr = run_impl_chunk(binp, [cand])[0]
-            vv, _, _ = eval_rt(cand, {"lens": [meta["lens"][k]]}, rr)
+            vv, _ = eval_rt(cand, {"lens": [meta["lens"][k]]}, rr)
             if vv:
                 best = (cand, rr, vv)
                 break
         out.violation("round trip: " + best[2][0],
                       {"property": "C19", "script": [best[0]], "original": l if best[0] != l else None, "variant": "default",
                        "seed": ctx.seed, "impl": best[1], "clause": best[2][0], "all_clauses": v,
-                       "theorem": "roundtrip_given_zlib_partial (bookkeeping) / zlib assumption"})
-    cov["round_trips"] = {"scenarios": len(rlines), "messages": nmsgs, "failing": len(rbad), "f37_scenarios": f37_seen,
-                          "message_limit": maxmsg}
+                       "theorem": "roundtrip_given_zlib / roundtrip_session_given_zlib (bookkeeping; zlib assumed)"},
+                      no_input=all("ASSUMPTION" in c for c in v))
+    cov["round_trips"] = {"scenarios": len(rlines), "messages": nmsgs, "failing": len(rbad), "message_limit": maxmsg,
+                          "messages_in_the_former_f37_trigger": rstats.get("former_f37_trigger", 0),
+                          "messages_zlib_refuses": rstats.get("zlib_refuses", 0)}
 
-    # ------------------------------------------------------------------ 3b. websocket_compress against the model
+    # ------------------------------------------------------------------ 3b. the compressor alone, against its clause and the model
     comps = gen_comp(ctx)
     klines = [l for l, _ in comps]
     kres = run_impl(binp, klines, chunk=200)
-    mlines, midx = [], []
-    for k, ((l, n), r) in enumerate(zip(comps, kres)):
-        m = re.search(r"full=([0-9a-f]+|-)", r["obs"])
-        if m:
-            mlines.append("comp %d %s" % (n, m.group(1)))
-            midx.append(k)
-    kmod = model(mlines)
     kbad = []
-    for j, k in enumerate(midx):
-        (l, n), r = comps[k], kres[k]
+    kstats = {}
+    mall, mslices, answers_all = [], [], []
+    for (l, pl), r in zip(comps, kres):
         traces += 1
-        evals += 1
-        full = C.unhex(re.search(r"full=([0-9a-f]+|-)", r["obs"]).group(1))
-        trig = n == 0 or len(full) > 2 * n
-        bump("comp.trigger" if trig else "comp.fits")
-        got = "comp WILD" if "abort" in r else canon(re.sub(r"full=\S+ ", "", r["obs"]))
-        if trig:
-            f37_seen += 1
-        clause = None
-        if "abort" in r and not (trig and open_f37):
-            clause = "sanitizer abort %s at %s" % (r["abort"]["kind"], r["abort"]["where"])
-        elif not trig and ("tail=1" not in got or "ret=%d " % (len(full) - 4) not in got + " " or
-                           C.unhex(re.search(r"out=(\S+)", got).group(1)) + bytes([0, 0, 255, 255]) != full):
-            clause = "compressed message is not zlib's output without its tail"
-        elif trig and not open_f37:
-            clause = "deflate output longer than 2*len (F37) and no open finding lists it"
-        differs = kmod is not None and canon(kmod[j]) != got
-        if clause or differs:
-            kbad.append((l, r, kmod[j] if kmod else None, clause))
+        v, ml, ans, st = eval_comp(l, pl, r)
+        evals += len(pl)
+        for kk, vv in st.items():
+            kstats[kk] = kstats.get(kk, 0) + vv
+        bump("comp.dest." + l.split()[2][0])
+        mslices.append((len(mall), len(ml)))
+        mall += ml
+        answers_all.append(ans)
+        nontrivial.add(("comp", l.split()[1], l.split()[2], tuple(len(p) for p in pl)))
+        if v:
+            kbad.append((l, r, None, v[0]))
+    kmod = model(mall)
+    if kmod is not None:
+        for ((l, pl), r, (a, cnt), ans) in zip(comps, kres, mslices, answers_all):
+            mm = [canon(x) for x in kmod[a:a + cnt]]
+            if mm != ans and not any(b[0] == l for b in kbad):
+                kbad.append((l, r, mm, None))
     for (l, r, m, clause) in kbad[:3]:
-        out.violation("websocket_compress: " + (clause or "model and implementation differ"),
-                      {"property": "C19", "script": [l], "variant": "default", "seed": ctx.seed, "impl": r, "model": m,
-                       "clause": clause, "theorem": "tail_roundtrip / compress (Cjet.Deflate)"}, no_input=not clause)
-    cov["compress"] = {"ops": len(klines), "compared_with_model": len(mlines), "disagreements": len(kbad)}
+        # shrink to the first failing message when it fails on its own
+        w = l.split()
+        best = (l, r)
+        if clause:
+            for k in range(3, len(w)):
+                cand = " ".join(w[:3] + [w[k]])
+                rr = run_impl_chunk(binp, [cand])[0]
+                vv, _, _, _ = eval_comp(cand, [C.unhex(w[k])], rr)
+                if vv:
+                    best, clause = (cand, rr), vv[0]
+                    break
+        out.violation("sender: " + (clause or "model and implementation differ"),
+                      {"property": "C19", "script": [best[0]], "original": l if best[0] != l else None, "variant": "default",
+                       "seed": ctx.seed, "impl": best[1], "model": m, "clause": clause,
+                       "theorem": "compress_never_truncates / compress_no_oob_for_any_zlib_output (Cjet.Deflate.compress)"},
+                      no_input=(not clause) or "ASSUMPTION" in clause)
+    cov["compress"] = {"ops": len(klines), "messages": sum(len(pl) for _, pl in comps), "compared_with_model": len(mall),
+                       "failing": len(kbad), "destination_larger_than_output": kstats.get("fits", 0),
+                       "destination_too_small": kstats.get("too_small", 0), "zlib_refuses": kstats.get("zlib_refuses", 0),
+                       "messages_in_the_former_f37_trigger": kstats.get("former_f37_trigger", 0)}
 
-    if (f37_seen or f37_replay) and open_f37:
-        out.known_finding("F37 websocket_compress offers zlib 2*len bytes: payloads of <= 5 bytes (some of 6, the empty one) are "
-                          "truncated, read outside dest, or answered -1 (directed replay %s; %d generated scenarios inside the trigger)"
-                          % ("reproduces" if f37_replay else "does not reproduce", f37_seen))
     # ------------------------------------------------------------------ 4. corrupt streams
     clines = gen_corrupt(ctx)
     cres = run_impl(binp, clines, chunk=200)
@@ -921,7 +1105,7 @@ def run(ctx, out):
                                alpha, nex, " in every order" if ctx.thorough else " (orders sampled in the quick tier)"),
         "samples": [flines[nex + 3] if len(flines) > nex + 3 else "", olines[7], olines[-1][:200], rlines[0][:200], clines[0][:200]],
         "model_driver_used": bool(model_ok),
-        "level_note": "PARTIAL: bookkeeping and negotiation proved; zlib assumed; losslessness sampled",
+        "level_note": "PARTIAL: bookkeeping, sender safety and negotiation proved; zlib assumed (hTail, hInv, hBound); losslessness sampled",
     })
     if not model_ok and ctx.lean_ok:
         out.violation("model driver drv_deflate not available", {"property": "C19", "broken": "drv_deflate"}, no_input=True)
